@@ -85,3 +85,39 @@ Theorem C02_logicsim_model_correct : forall c reuse strip s0 s1,
   | None => build_stems c strip (List.length (c_lines c) + 3 + List.length (s_nodes c) + List.length (s_nodes c)) = None
   end.
 Proof. exact KV.Proofs.LogicSimGlue.sim_case8_correct. Qed.
+
+(** ---- source tie of the 4- / 8-valued evaluation loops of LogicSim.c_prop (round 3): their if / elif chains are translated from the
+    CURRENT source (translate/gen_logicsim_drivers.py -> Gen/LogicSimDriversSrc.v).  For every opcode constant of sim.py the chain
+    selects a branch (a sequence of bp4v_* / bp8v_* calls on the views c[o0], c[i0..i3], c[t0], c[t1]; each call means the program traced
+    from logic.py, Gen/LogicOps.v, in place for `bpXv_not(c[o0], c[o0])`) that reads o0 / t0 / t1 only after it has written them and
+    leaves in c[o0] exactly what the table traced by translate/gen_dispatch.py computes, on ALL 4^4 / 8^4 operand tuples -- hence the
+    documented operator composition. *)
+From Coq Require Import ZArith.
+From KV Require Import Gen.SimTables Gen.LogicSimDispatch Model.Logic Model.OpSem.
+From KV Require Import Model.WaveDrvPrelude Model.LogicSimDrvPrelude Gen.LogicSimDriversSrc.
+From KV Require Proofs.LogicSimDriversProofs.
+Theorem C02_logicsim_chain_agrees_trace :
+  forallb (KV.Proofs.LogicSimDriversProofs.chainN_chk 2 codes4 (l_chain loop_cprop4) disp4) lut_table = true /\
+  forallb (KV.Proofs.LogicSimDriversProofs.chainN_chk 2 codes4 (l_chain loop_cprop4) disp4_cb) lut_table = true /\
+  forallb (KV.Proofs.LogicSimDriversProofs.chainN_chk 3 all_codes (l_chain loop_cprop8) disp8) lut_table = true /\
+  forallb (KV.Proofs.LogicSimDriversProofs.chainN_chk 3 all_codes (l_chain loop_cprop8) disp8_cb) lut_table = true /\
+  KV.Proofs.LogicSimDriversProofs.guards_known (l_chain loop_cprop4) = true /\ KV.Proofs.LogicSimDriversProofs.guards_known (l_chain loop_cprop8) = true.
+Proof. exact (conj KV.Proofs.LogicSimDriversProofs.chain4_ok (conj KV.Proofs.LogicSimDriversProofs.chain4_cb_ok
+              (conj KV.Proofs.LogicSimDriversProofs.chain8_ok (conj KV.Proofs.LogicSimDriversProofs.chain8_cb_ok
+              (conj KV.Proofs.LogicSimDriversProofs.guards_4_ok KV.Proofs.LogicSimDriversProofs.guards_8_ok))))). Qed.
+
+(* PARTIAL with respect to the intended C02_logicsim_drivers_source_is_model (translated m = 4 / m = 8 loop over the op rows = c_prop of
+   Model/LogicSimModel.v with sem8): proved per branch on the names' values (register view); missing is the lifting to the list memory
+   (needs: the locations of o0, t0, t1 differ from each other and from the operands' -- the memory map's guarantee, not yet a theorem --
+   and equality only outside the two scratch locations) and the fold over the op list.  The whole loops are compared with the real
+   c_prop on generated arrays on every run (harness/lsim_drivers_corr.py). *)
+Theorem C02_logicsim_drivers_source_is_model_partial :
+  (forall tbl, tbl = disp8 \/ tbl = disp8_cb -> forall l p, KV.Model.LogicSimModel.prim_of_lut l = Some p ->
+     exists body, chain_find (l_chain loop_cprop8) (Z.of_N l) = Some body /\ KV.Proofs.LogicSimDriversProofs.dbu [] body = true /\
+       forall a b c d, KV.Proofs.LogicSimDriversProofs.reg_exec body (KV.Proofs.LogicSimDriversProofs.opdN 3 a b c d) So0 = code_bits (spec_prim p a b c d)) /\
+  (forall tbl, tbl = disp4 \/ tbl = disp4_cb -> forall l p, KV.Model.LogicSimModel.prim_of_lut l = Some p ->
+     exists body, chain_find (l_chain loop_cprop4) (Z.of_N l) = Some body /\ KV.Proofs.LogicSimDriversProofs.dbu [] body = true /\
+       forall a b c d, is4 a = true -> is4 b = true -> is4 c = true -> is4 d = true ->
+         KV.Proofs.LogicSimDriversProofs.reg_exec body (KV.Proofs.LogicSimDriversProofs.opdN 2 a b c d) So0 = firstn 2 (code_bits (spec_prim p a b c d)) /\
+         is4 (spec_prim p a b c d) = true).
+Proof. exact (conj KV.Proofs.LogicSimDriversProofs.chain8_branch KV.Proofs.LogicSimDriversProofs.chain4_branch). Qed.
